@@ -7,11 +7,11 @@ import (
 	"bytes"
 	"crypto/sha256"
 	"encoding/hex"
-	"regexp"
 	"errors"
 	"fmt"
 	"math/rand"
 	"os"
+	"regexp"
 	"sort"
 	"strconv"
 	"strings"
